@@ -18,7 +18,7 @@ git apply $SRC/patch.diff || { echo "$PID $CH: patch does not apply"; exit 3; }
 PYTHONPATH=$WT timeout 900 /venv/bin/python _demo.py > /tmp/cs.$PID.$N.mut.log 2>&1; MUT=$?
 rm -f _demo.py
 /venv/bin/python -m pytest -q -p no:cacheprovider --timeout=900 -x -q > /tmp/cs.$PID.$N.pytest.log 2>&1; PT=$?
-SUMMARY=$(tail -1 /tmp/cs.$PID.$N.pytest.log)
+SUMMARY=$(grep -E "passed|failed" /tmp/cs.$PID.$N.pytest.log | tail -1)
 if [ $CLEAN -eq 0 ] && [ $MUT -ne 0 ] && [ $PT -eq 0 ]; then
   mkdir -p $DST
   cp $SRC/patch.diff $SRC/demo.py $DST/
